@@ -128,7 +128,8 @@ def state_strings_ok(si: int, ei: int, dirv: str, langv: str, typev: str, namev:
 
 # ---- odd attribute values -------------------------------------------------------------------------
 
-ODD = [None, 5, 1.5, True, b'x', b'\xff', ['a', ['b']], (), ['a', 5, None], ('a', 'b'), [], '', ' ', ['a b']]
+ODD = [None, 5, 1.5, True, b'x', b'\xff', ['a', ['b']], (), ['a', 5, None], ('a', 'b'), [], '', ' ', ['a b'],
+       ['a', b'b'], [b'a'], [b'\xff', 'a'], ['a', [b'b', None]], (b'a', 'b'), [None], [1.5, 'a'], ['a', ('b', b'c')]]
 ODD_SELECTORS = part([sv.compile(s) for s in (
     '[t]', '[t=a]', '[t~=a]', '[t|=a]', '[t^=a]', '[t$=a]', '[t*=a]', '[t!=a]', '[t="5" i]', '.a', '#a', '.a.b',
     '[class]', '[class~=a]', '[id=a]', '[class*=a]', ':not([t])', ':is(.a, #a)', 'p[t]:first-child')])
